@@ -1,4 +1,5 @@
 import CoreBGP.Model.Reconnect
+import CoreBGP.Lemmas.Reconnect
 /-!
 # C11 (timed half) — retry pacing and bounded reconnection, on the timed model of Idle / Connect / Active
 
@@ -8,6 +9,7 @@ monitor (partial in that sense).
 -/
 namespace CoreBGP.Props.C11T
 open CoreBGP CoreBGP.Model
+open CoreBGP.Lemmas.Reconnect
 
 /-- invariant: the idle-hold timer is always armed; after an exit from Idle it is armed for exactly
 that exit + idle-hold; the connect-retry timer is armed whenever the FSM is in Connect or Active,
@@ -19,40 +21,50 @@ def Inv (s : RSess) : Prop :=
   ((s.st = .connect ∨ s.st = .active) → ∃ d, s.crDl = some d ∧ d ≤ s.now + s.cr) ∧
   (s.st = .connect → s.dialing = true)
 
-theorem inv_reachable (ih cr t0 : Nat) (s : RSess) (h : RReach ih cr t0 s) : Inv s ∧ s.ih = ih ∧ s.cr = cr := by
-  sorry
+theorem inv_reachable (ih cr t0 : Nat) (s : RSess) (h : RReach ih cr t0 s) : Inv s ∧ s.ih = ih ∧ s.cr = cr :=
+  rinv_reachable ih cr t0 s h
 
 /-- pacing: an exit from Idle (the start of an outbound attempt from Idle) is enabled only once the
 idle-hold time has passed since the previous exit from Idle — successive attempts under refusal are
 spaced by the idle-hold time, never back to back -/
 theorem paced (ih cr t0 : Nat) (s s' : RSess) (h : RReach ih cr t0 s) (t : Nat)
     (hl : s.lastIdleExit = some t) (hs : rstep s .idleFire = some s') : s.now ≥ t + ih := by
-  sorry
+  obtain ⟨⟨_, h2, _⟩, hih, _⟩ := inv_reachable ih cr t0 s h
+  obtain ⟨_, d, hd, hle⟩ := idleFire_guard hs
+  obtain ⟨hd', _⟩ := h2 t hl
+  rw [hd'] at hd
+  simp only [Option.some.injEq] at hd
+  omega
 
 /-- every attempt that is abandoned by the connect-retry timer is replaced by a new one at once, and
 the timer is re-armed for the new attempt -/
 theorem retry_rearms (ih cr t0 : Nat) (s s' : RSess) (h : RReach ih cr t0 s)
     (hs : rstep s .crFireRedial = some s') : s'.st = .connect ∧ s'.dialing = true ∧ s'.crDl = some (s.now + cr) := by
-  sorry
+  obtain ⟨_, _, hcr⟩ := inv_reachable ih cr t0 s h
+  obtain ⟨he, hst⟩ := crFireRedial_eq hs
+  subst he
+  exact ⟨hst, rfl, by rw [← hcr]⟩
 
 /-- bounded reconnection: from every reachable state the next attempt (which a well-behaved remote
 accepts) starts within max(idle-hold, connect-retry) ≤ idle-hold + connect-retry, if timer events
 are taken as soon as they are enabled -/
 theorem attempt_within_bound (ih cr t0 : Nat) (s : RSess) (h : RReach ih cr t0 s) :
     timeToAttempt s ≤ ih + cr := by
-  sorry
+  obtain ⟨hi, hih, hcr⟩ := inv_reachable ih cr t0 s h
+  have := tta_le hi
+  omega
 
 /-- … and after waiting that long the attempt is enabled: in Idle the idle-hold event, in Connect /
 Active the connect-retry event; the attempt's success (`dialOK`) then leads out of this model -/
 theorem attempt_enabled (ih cr t0 : Nat) (s : RSess) (h : RReach ih cr t0 s) (hc : s.st ≠ .connected) :
     ∃ e s', (e = .idleFire ∨ e = .crFireRedial ∨ e = .crFireActive) ∧
       rstep { s with now := s.now + timeToAttempt s } e = some s' ∧ s'.st = .connect ∧ s'.dialing = true ∧
-      ∃ s'', rstep s' .dialOK = some s'' ∧ s''.st = .connected := by
-  sorry
+      ∃ s'', rstep s' .dialOK = some s'' ∧ s''.st = .connected :=
+  attempt_enabled_of_inv (inv_reachable ih cr t0 s h).1 hc
 
 /-- a refused attempt goes back to Idle with the connect-retry timer stopped -/
-theorem refused_to_idle (s s' : RSess) (hs : rstep s .dialFailed = some s') : s'.st = .idle ∧ s'.crDl = none := by
-  sorry
+theorem refused_to_idle (s s' : RSess) (hs : rstep s .dialFailed = some s') : s'.st = .idle ∧ s'.crDl = none :=
+  dialFailed_eq hs
 
 -- non-vacuity: three refused attempts are 200 ms apart (ih = 200 ms)
 example : (([REv.idleFire, .dialFailed, .tick 200000000, .idleFire, .dialFailed, .tick 199999999, .idleFire].foldl
